@@ -76,14 +76,6 @@ partial def kindsWF : AreaT → Bool
     && kids.all kindsWF
 
 def opsGenes (ops : List Op) : List Gene := ops.filterMap fun | .cds g => some g | _ => none
-/-- every area object a history mentions (added directly or as a region created by a clearing call) -/
-def opsAreas (ops : List Op) : List AreaT := ops.flatMap fun
-  | .area a => [a]
-  | .clearSubs new => new
-  | .clearCands new => new
-  | .clearProtos new => new
-  | _ => []
-
 def allNodes (extra : List AreaT) (ops : List Op) : List AreaT :=
   let ns := (opsAreas ops ++ extra).flatMap nodes
   ns.foldl (fun acc a => if acc.any (·.id == a.id) then acc else acc ++ [a]) []
